@@ -428,6 +428,9 @@ def gen_quantity(rng, total=None):
         u = rng.choice(UNITS)
         if rng.random() < 0.3:
             u = rng.choice([u.upper(), u.title()])
+        if " " in u and rng.random() < 0.5:
+            # the words of a unit name may be separated by any white space (the unit pattern joins them with \s+); recovered verbatim
+            u = u.replace(" ", rng.choice(["\t", "  ", " \t", "\u00a0", "\u2003"]))
         return ("qty", v, u, rng.choice(["", " ", "  "]), prep)
     return ("xqty", v, rng.choice([None, "handful", "big sack", "Kg", "glug's", "x y"]), rng.choice(["", " "]), prep)
 
